@@ -134,19 +134,18 @@ def native_replay(prop, job, workdir, requests, tag, race=False, timeout=600):
             os.path.join(pkgdir, "zz_verif_replay_test.go"): tfile}
     for f in files:
         repl[os.path.join(pkgdir, "zz_verif_" + os.path.basename(f))] = f
-    # optional source rewrites (e.g. clock hooks) generated from the CURRENT tree
-    for rw in job.get("native_rewrites", []):
-        src = open(os.path.join(REPO, rw["file"])).read()
-        for a, b in rw["subst"]:
-            src = src.replace(a, b)
-        outp = os.path.join(workdir, "rw_" + tag + "_" + os.path.basename(rw["file"]))
-        open(outp, "w").write(src)
-        repl[os.path.join(REPO, rw["file"])] = outp
-    for yf in job.get("yieldify", []):
-        real = os.path.join(REPO, yf)
-        srcp = repl.get(real, real)
-        outp = os.path.join(workdir, "yield_" + tag + "_" + os.path.basename(yf))
-        r = sh([GOSMT, "yieldify", srcp, outp])
+    # instrumented copies (clock hook / yield points), generated from the CURRENT tree
+    hookdir = os.path.join(REPO, "lib", "zzverifhook")
+    repl[os.path.join(hookdir, "hook.go")] = os.path.join(ROOT, "harness", "zzverifhook.go.src")
+    targets = {}
+    for f in job.get("native_now", []):
+        targets.setdefault(f, set()).add("now")
+    for f in job.get("yieldify", []):
+        targets.setdefault(f, set()).add("yield")
+    for f, modes in targets.items():
+        real = os.path.join(REPO, f)
+        outp = os.path.join(workdir, "rw_" + tag + "_" + f.replace("/", "_"))
+        r = sh([GOSMT, "rewrite", real, outp] + sorted(modes))
         if r.returncode == 0:
             repl[real] = outp
     ofile = os.path.join(workdir, "overlay_%s_%s.json" % (gopkg, tag))
@@ -326,7 +325,7 @@ def cmd_run(prop, tier, seed):
                 reproduced = True
             rec = dict(property=prop, entry=entry, check=check, model=v["model"], note=v.get("note"), trace=v.get("trace"),
                        sched=v.get("sched"), job=dict(pkg=job["pkg"], gopkg=job["gopkg"], files=job["files"],
-                                                      native_rewrites=job.get("native_rewrites", []), yieldify=job.get("yieldify", [])),
+                                                      native_now=job.get("native_now", []), yieldify=job.get("yieldify", [])),
                        native=chunk, reproduced=reproduced, replay=dict(repeat=reps, timeout_ms=exp.get("timeout_ms", 8000), race=bool(exp.get("race"))))
             h = hashlib.md5(json.dumps([entry, check, v["model"]], sort_keys=True).encode()).hexdigest()[:10]
             path = os.path.join(ROOT, "replays", "%s-%s.json" % (prop, h))
